@@ -214,7 +214,9 @@ def theorem_names(props_file):
         if m and ns and ns[-1] == m.group(1):
             ns.pop()
             continue
-        m = re.match(r"\s*(?:@\[[^\]]*\]\s*)?(?:private\s+|protected\s+)?theorem\s+([^\s:({\[]+)", line)
+        if re.match(r"\s*(?:@\[[^\]]*\]\s*)?private\s+theorem", line):
+            continue  # private glue lemmas are not obligations (their names are mangled)
+        m = re.match(r"\s*(?:@\[[^\]]*\]\s*)?(?:protected\s+)?theorem\s+([^\s:({\[]+)", line)
         if m:
             names.append(".".join(ns + [m.group(1)]))
     return names
